@@ -234,8 +234,48 @@ fn date_dur() -> BoxedStrategy<Dur> {
         .boxed()
 }
 
+/// durations with one field whose scaled value (years*12, weeks*7, time units in days) is within a few units of a
+/// multiple of 2^31 / 2^32 / 2^63 / 2^64, the others zero or small: arithmetic narrowed to 32 or 64 bits would wrap
+/// to a small, plausible result instead of reporting the range error
+pub fn wrap_dur() -> BoxedStrategy<Dur> {
+    let lim = (1i128 << 32) - 1;
+    let which = prop_oneof![
+        2 => gen::wrap_prone(1, lim).prop_map(|v| (0usize, v)),
+        2 => gen::wrap_prone(12, lim).prop_map(|v| (0usize, v)),
+        2 => gen::wrap_prone(1, lim).prop_map(|v| (1usize, v)),
+        3 => gen::wrap_prone(7, lim).prop_map(|v| (2usize, v)),
+        2 => gen::wrap_prone(1, lim).prop_map(|v| (2usize, v)),
+        2 => gen::wrap_prone(1, 104_249_991_374).prop_map(|v| (3usize, v)),
+        1 => gen::wrap_prone(1, 2_501_999_792_983).prop_map(|v| (4usize, v)),
+        1 => gen::wrap_prone(1, 150_119_987_579_016).prop_map(|v| (5usize, v)),
+    ];
+    (prop::bool::ANY, which, prop_oneof![3 => Just(0i128), 1 => 0i128..=12], prop_oneof![3 => Just(0i128), 1 => 0i128..=40])
+        .prop_map(|(neg, (i, v), small_mo, small_d)| {
+            let mut f = [0i128; 10];
+            if i != 1 {
+                f[1] = small_mo;
+            }
+            if i != 3 {
+                f[3] = small_d;
+            }
+            f[i] = gen::through_f64(v);
+            if neg {
+                for x in f.iter_mut() {
+                    *x = -*x;
+                }
+            }
+            Dur { f }
+        })
+        .prop_filter("valid", |d| d.valid())
+        .boxed()
+}
+
 pub fn add_case() -> BoxedStrategy<AddCase> {
-    (gen::day(), date_dur(), prop::bool::ANY, prop::bool::weighted(0.3)).prop_map(|(day, dur, reject, subtract)| AddCase { day, dur, reject, subtract }).boxed()
+    (gen::day(), prop_oneof![9 => date_dur(), 1 => wrap_dur()], prop::bool::ANY, prop::bool::weighted(0.3)).prop_map(|(day, dur, reject, subtract)| AddCase { day, dur, reject, subtract }).boxed()
+}
+/// wrap-prone durations only (also run by C02)
+pub fn wrap_case() -> BoxedStrategy<AddCase> {
+    (gen::day(), wrap_dur(), prop::bool::ANY, prop::bool::weighted(0.3)).prop_map(|(day, dur, reject, subtract)| AddCase { day, dur, reject, subtract }).boxed()
 }
 pub fn diff_case() -> BoxedStrategy<DiffCase> {
     (gen::day_pair(), gen::unit_in(0, 3)).prop_map(|((a, b), largest)| DiffCase { a, b, largest }).boxed()
@@ -250,7 +290,7 @@ pub fn mirror_case() -> BoxedStrategy<MirrorCase> {
 }
 
 pub fn run(ctx: &mut Ctx) {
-    ctx.rule = "add: generated (date, valid duration over all ten fields incl. 2^31+-k and 2^32-1 magnitudes, overflow, add|subtract) against AddISODate in unbounded integers (value or RangeError); until: generated pairs (boundary-biased: month ends, leap days, negative years, spans up to 5.4e5 years) x largestUnit in {year, month, week, day} against DifferenceISODate, plus model-free laws (sign-uniform, balanced, a.add(a.until(b))==b, since==-until, subtract==add(-d)); since-mirror: since(mode) == -until(negated mode) with smallestUnit/increment; thorough adds an exhaustive block of all pairs of days in 1999-12-01..2001-03-31 x 4 units. non-trivial = start day >= 29, Feb 29 involved, mixed signs of raw component differences, span crosses year 0, result within a month of a limit, or time units present.".into();
+    ctx.rule = "add: generated (date, valid duration over all ten fields incl. 2^31+-k and 2^32-1 magnitudes and - one case in ten - one field whose scaled value (years*12, weeks*7, ...) is within a few units of k*2^31 / 2^32 / 2^63 / 2^64, overflow, add|subtract) against AddISODate in unbounded integers (value or RangeError); until: generated pairs (boundary-biased: month ends, leap days, negative years, spans up to 5.4e5 years) x largestUnit in {year, month, week, day} against DifferenceISODate, plus model-free laws (sign-uniform, balanced, a.add(a.until(b))==b, since==-until, subtract==add(-d)); since-mirror: since(mode) == -until(negated mode) with smallestUnit/increment; thorough adds an exhaustive block of all pairs of days in 1999-12-01..2001-03-31 x 4 units. non-trivial = start day >= 29, Feb 29 involved, mixed signs of raw component differences, span crosses year 0, result within a month of a limit, or time units present.".into();
     let t = ctx.tier;
     ctx.run_prop(&AddSub, &add_case, t.pick(1_000_000, 30_000_000));
     ctx.run_prop(&DiffSub, &diff_case, t.pick(1_000_000, 30_000_000));
